@@ -623,7 +623,11 @@ def shared(ctx, fn, frm, to, *a, **k):
     """Run another property's rule function as a clause of this one: the obligations it records are relabelled `to` (the clause is a
     necessary condition of both properties; each check reports it under its own rule id)."""
     n0 = len(ctx.rep.obligations)
+    only = k.pop('only', None)
     r = fn(ctx, *a, **k)
+    if only is not None:
+        # one clause of the other rule is the necessary condition shared here; the rest stays with its owner
+        ctx.rep.obligations[n0:] = [o for o in ctx.rep.obligations[n0:] if any(x in o['key'] for x in only)]
     for o in ctx.rep.obligations[n0:]:
         if o['rule'].startswith(frm):
             o['rule'] = to
